@@ -38,3 +38,36 @@ Fixpoint str_prefixb (p s : str) : bool :=
   end.
 Fixpoint py_str_contains (s sub : str) : bool :=
   str_prefixb sub s || match s with [] => false | _ :: r => py_str_contains r sub end.
+
+(* ---- loops.  A `for` statement becomes one of three combinators applied to a step function over the
+        tuple of the variables the body assigns:
+          no break, cannot raise : [fold_left step xs init]
+          break, cannot raise    : [py_forb step xs init]   (the step also says whether to stop)
+          may raise (or yields)  : [py_for step xs init]    (the step says go on / break / raise) ---- *)
+Inductive ctl (S : Type) := Next (s : S) | Break (s : S) | Raise (e : N).
+Arguments Next {S} s. Arguments Break {S} s. Arguments Raise {S} e.
+Fixpoint py_for {S X} (step : S -> X -> ctl S) (l : list X) (s : S) : result S :=
+  match l with
+  | [] => Ok s
+  | x :: r => match step s x with
+              | Next s' => py_for step r s'
+              | Break s' => Ok s'
+              | Raise e => Err e
+              end
+  end.
+Fixpoint py_forb {S X} (step : S -> X -> S * bool) (l : list X) (s : S) : S :=
+  match l with
+  | [] => s
+  | x :: r => let '(s', stop) := step s x in if stop then s' else py_forb step r s'
+  end.
+
+(* ---- sequences: l[i:], l[:j], l[i:j] (negative bounds count from the end, everything is clipped),
+        l * n (n <= 0 gives []), enumerate(l, start) ---- *)
+Definition py_index {A} (l : list A) (i : Z) : nat :=
+  if (i <? 0)%Z then Z.to_nat (Z.of_nat (List.length l) + i) else Z.to_nat i.
+Definition py_slice_from {A} (l : list A) (i : Z) : list A := skipn (py_index l i) l.
+Definition py_slice_to {A} (l : list A) (j : Z) : list A := firstn (py_index l j) l.
+Definition py_slice {A} (l : list A) (i j : Z) : list A := skipn (py_index l i) (firstn (py_index l j) l).
+Definition py_list_mul {A} (l : list A) (n : Z) : list A := concat (repeat l (Z.to_nat n)).
+Fixpoint py_enumerate {A} (start : Z) (l : list A) : list (Z * A) :=
+  match l with [] => [] | x :: r => (start, x) :: py_enumerate (start + 1)%Z r end.
